@@ -122,20 +122,6 @@ func checkBounds(what string, b *geom.Bounds, wantLayout geom.Layout, r ref) err
 	return nil
 }
 
-// rewrite maps every ordinate x of every leaf geometry to -x-1, in place.
-func rewrite(t geom.T) {
-	if gc, ok := t.(*geom.GeometryCollection); ok {
-		for _, m := range gc.Geoms() {
-			rewrite(m)
-		}
-		return
-	}
-	fc := t.FlatCoords()
-	for i := range fc {
-		fc[i] = -fc[i] - 1
-	}
-}
-
 var std = []geom.Layout{geom.XY, geom.XYZ, geom.XYM, geom.XYZM}
 
 func genGeom(t *rapid.T, layouts []geom.Layout, depth int, floats int) *model.G {
@@ -239,6 +225,7 @@ func prop(c Case) error {
 		}
 		r := ref{}
 		r.addGeom(g)
+		held := model.Leaves(t) // the caller's aliases of the coordinates, taken before any query
 		b := t.Bounds()
 		if err := checkBounds(g.Kind+".Bounds()", b, g.ReportedLayout(), r); err != nil {
 			return err
@@ -283,11 +270,12 @@ func prop(c Case) error {
 		// the bounds are those of the coordinates as they are now: every ordinate is
 		// rewritten in place (x -> -x-1 swaps the roles of minimum and maximum) and the
 		// bounds asked for again, on the same object
-		rewrite(t)
-		g2, err := model.FromGeom(t)
-		if err != nil {
-			return fmt.Errorf("harness: geometry ill formed after rewriting ordinates: %v", err)
+		for _, l := range held {
+			for i := range l.Flat {
+				l.Flat[i] = -l.Flat[i] - 1
+			}
 		}
+		g2 := g.Mapped(func(x float64) float64 { return -x - 1 }) // from the model: the object is not read back
 		r2 := ref{}
 		r2.addGeom(g2)
 		if err := checkBounds(g.Kind+".Bounds() after its ordinates were rewritten in place", t.Bounds(), g.ReportedLayout(), r2); err != nil {
